@@ -74,6 +74,22 @@ NthIndexFrom(s, c, n, i) ==
 CutAt(s, c) == IF StrContains(s, c) THEN SubSeq(s, 1, IndexOf(s, c) - 1) ELSE s
 StripQueryHash(s) == CutAt(CutAt(s, "?"), "#")
 
+\* percent-decoding of a file: URL path (fileURLToPath).  Only the escapes the
+\* family uses are in the table; other escapes stay literal.
+PctTable == [h \in {"66", "2e", "2E", "6a", "6A", "73", "78"} |->
+               CASE h = "66" -> "f" [] h \in {"2e", "2E"} -> "." [] h \in {"6a", "6A"} -> "j"
+                 [] h = "73" -> "s" [] h = "78" -> "x"]
+RECURSIVE PctDecodeFrom(_, _)
+PctDecodeFrom(s, i) ==
+  IF i > Len(s) THEN ""
+  ELSE IF Ch(s, i) = "%" /\ i + 2 <= Len(s) /\ SubSeq(s, i + 1, i + 2) \in DOMAIN PctTable
+       THEN PctTable[SubSeq(s, i + 1, i + 2)] \o PctDecodeFrom(s, i + 3)
+       ELSE Ch(s, i) \o PctDecodeFrom(s, i + 1)
+PctDecode(s) == IF StrContains(s, "%") THEN PctDecodeFrom(s, 1) ELSE s
+\* "%2F" or "%5C" in any case
+HasEncodedSeparator(s) ==
+  \E i \in 1..Len(s) : Ch(s, i) = "%" /\ i + 2 <= Len(s) /\ SubSeq(s, i + 1, i + 2) \in {"2f", "2F", "5c", "5C"}
+
 -----------------------------------------------------------------------------
 (* paths *)
 
@@ -407,16 +423,21 @@ PackageWalk(T, packageName, packageSubpath, dirs, conds, skipped) ==
                       EXCEPT !.b = @ \cup nested]
               ELSE IF packageSubpath = "."                                         \* 11.6
               THEN [L("PKG.walk.legacy-main", LEGACY_MAIN_RESOLVE(T, pkgDir, pj)) EXCEPT !.b = @ \cup nested]
-              ELSE [L("PKG.walk.subpath-no-exports", Url(pkgDir \o DropFirst(packageSubpath, 1)))   \* 11.7
+              ELSE [L("PKG.walk.subpath-no-exports", Url(PathResolve(pkgDir, packageSubpath)))   \* 11.7
                       EXCEPT !.b = @ \cup nested])
 
-\* ESM_RESOLVE steps 7.1 - 7.4 for a file: URL
+\* ESM_RESOLVE steps 7.1 - 7.4 for a file: URL (r.v is the URL path, still
+\* percent-encoded; the file system sees the decoded path)
 ESM_FINALIZE(T, r) ==
   IF r.t # "url" THEN r
-  ELSE IF IsDir(T, r.v) THEN L("ESM.final.directory", [r EXCEPT !.t = "err", !.v = "dir-import"])  \* 7.2
-  ELSE IF ~IsFile(T, r.v) THEN L("ESM.final.not-found", [r EXCEPT !.t = "err", !.v = "not-found"]) \* 7.3
-  ELSE L(IF RealPath(T, r.v) # r.v THEN "ESM.final.realpath-differs" ELSE "ESM.final.file",
-         [r EXCEPT !.t = "file", !.v = RealPath(T, r.v)])                                          \* 7.4
+  ELSE IF HasEncodedSeparator(r.v)
+  THEN L("URL.encoded-separator", [r EXCEPT !.t = "err", !.v = "invalid-specifier"])                 \* 7.1
+  ELSE LET path == PctDecode(r.v)
+           rr == IF path # r.v THEN L("URL.percent-decoded", r) ELSE r IN
+    IF IsDir(T, path) THEN L("ESM.final.directory", [rr EXCEPT !.t = "err", !.v = "dir-import"])     \* 7.2
+    ELSE IF ~IsFile(T, path) THEN L("ESM.final.not-found", [rr EXCEPT !.t = "err", !.v = "not-found"]) \* 7.3
+    ELSE L(IF RealPath(T, path) # path THEN "ESM.final.realpath-differs" ELSE "ESM.final.file",
+           [rr EXCEPT !.t = "file", !.v = RealPath(T, path)])                                        \* 7.4
 
 \* ESM_RESOLVE(specifier, parentURL); importer = path of the importing file.
 \* (step 2, "specifier is a valid URL", is outside the generated family)
@@ -466,12 +487,17 @@ LOAD_AS_DIRECTORY(T, X) ==
   ELSE IF IsDir(T, X) THEN L("CJS.dir.index", LOAD_INDEX(T, X))                   \* 2
   ELSE UndefR
 
-\* RESOLVE_ESM_MATCH(MATCH)
+\* RESOLVE_ESM_MATCH(MATCH): fileURLToPath percent-decodes the match (real Node
+\* first rejects encoded separators, as ESM_RESOLVE 7.1 does)
 RESOLVE_ESM_MATCH(T, match) ==
   IF match.t # "url" THEN match
-  ELSE IF IsFile(T, match.v)
-  THEN L("CJS.esm-match.file", After(match, [CJS_FILE(T, match.v) EXCEPT !.scope = match.scope, !.key = match.key]))
-  ELSE L("CJS.esm-match.not-found", [match EXCEPT !.t = "err", !.v = "not-found"])
+  ELSE IF HasEncodedSeparator(match.v)
+  THEN L("URL.encoded-separator", [match EXCEPT !.t = "err", !.v = "invalid-specifier"])
+  ELSE LET path == PctDecode(match.v)
+           mm == IF path # match.v THEN L("URL.percent-decoded", match) ELSE match IN
+    IF IsFile(T, path)
+    THEN L("CJS.esm-match.file", After(mm, [CJS_FILE(T, path) EXCEPT !.scope = match.scope, !.key = match.key]))
+    ELSE L("CJS.esm-match.not-found", [mm EXCEPT !.t = "err", !.v = "not-found"])
 
 \* name part of X for LOAD_PACKAGE_EXPORTS ("" = X does not match the pattern)
 CjsPackageName(X) ==
@@ -517,8 +543,8 @@ NodeModulesLoop(T, X, DIRS, conds, skipped) ==
   ELSE LET DIR == Head(DIRS) IN
     IF ~IsDir(T, DIR) THEN NodeModulesLoop(T, X, Tail(DIRS), conds, skipped)      \* (a directory that does not exist)
     ELSE LET r == OrElse(LOAD_PACKAGE_EXPORTS(T, X, DIR, conds),                  \* a
-                  OrElse(LOAD_AS_FILE(T, DIR \o "/" \o X),                        \* b
-                         LOAD_AS_DIRECTORY(T, DIR \o "/" \o X)))                  \* c
+                  OrElse(LOAD_AS_FILE(T, PathResolve(DIR, X)),                     \* b
+                         LOAD_AS_DIRECTORY(T, PathResolve(DIR, X))))               \* c
          IN IF r.t = "undef"
             THEN After(r, NodeModulesLoop(T, X, Tail(DIRS), conds, skipped + 1))
             ELSE L(IF skipped = 0 THEN "CJS.node_modules.first-dir" ELSE "CJS.node_modules.later-dir",
@@ -582,6 +608,7 @@ AllLabels == {
   "CJS.imports.no-scope", "CJS.imports.no-imports-field", "CJS.imports", "CJS.self",
   "CJS.node_modules.first-dir", "CJS.node_modules.later-dir", "CJS.node_modules.root",
   "CJS.node_modules.nested-or-inner",
-  "CJS.absolute", "CJS.relative", "CJS.relative.not-found", "CJS.bare.not-found" }
+  "CJS.absolute", "CJS.relative", "CJS.relative.not-found", "CJS.bare.not-found",
+  "URL.encoded-separator", "URL.percent-decoded" }
 
 =============================================================================
